@@ -18,7 +18,14 @@ import (
 	"time"
 )
 
-const Root = "/verif"
+// Root is the verification tree the check runs from: /verif, or $VERIF_ROOT (set by
+// run.sh to its own directory, so that a `vp run` snapshot writes into the snapshot).
+var Root = func() string {
+	if r := os.Getenv("VERIF_ROOT"); r != "" {
+		return r
+	}
+	return "/verif"
+}()
 
 // OutRoot is where evidence/ and replays/ are written: /verif, or $VERIF_OUT when a
 // scratch worktree is being checked (so that /verif/evidence always describes /repo).
